@@ -222,7 +222,7 @@ def _wb_outcome(ctx, cells, start):
     from xlsa.consteval import MsgRef, Ref
     wb = W.Workbook(ctx, cells)
     try:
-        out = wb.evaluate('Sheet1!' + start)
+        out = wb.evaluate(start if '!' in start else 'Sheet1!' + start)
     except Unmodelled as exc:
         if 'inlining deeper than' in str(exc) or 'budget exceeded' in str(exc):
             return ('unbounded', str(exc)[:100]), wb
@@ -260,6 +260,20 @@ def rule_5(ctx):
             n += 1
             ctx.expect(res[0] == 'value' and res[2] <= 12, ev_fn, f'no false cycle: diamond/repeated references to {start} over A1 = {plabel}',
                        f'{start} of {cells} ends in {res!r}: shared precedents and repeated references are not cycles and are evaluated once each')
+    # several sheets, titles that are prefixes of one another: an unqualified reference belongs to the sheet of its own formula
+    for first, second in (('Sheet1', 'Sheet10'), ('Sheet10', 'Sheet1'), ('Data', 'Data2'), ('Sheet1', 'Sheet2')):
+        cells = {f'{first}!A1': f'={second}!A1+1', f'{first}!B1': '=A1*2', f'{second}!A1': '=B1+1', f'{second}!B1': 5,
+                 f'{first}!C1': f'=B1+{second}!A1+A1', f'{first}!D1': f'=SUM({second}!A1:B1)+SUM(A1:B1)'}
+        for start, want in ((f'{first}!A1', 7), (f'{first}!B1', 14), (f'{first}!C1', 27), (f'{first}!D1', 32)):
+            res, wb = _wb_outcome(ctx, cells, start)
+            n += 1
+            ctx.expect(res[0] == 'value' and res[1] == ('Number', want), ev_fn, f'no false cycle: same coordinates on sheets {first} and {second}, {start.partition("!")[2]}',
+                       f'{start} of {cells} ends in {res[:3]!r}; the model is acyclic ({second}!A1 refers to B1 of its own sheet, a constant) and {start} is {want}')
+        cells = {f'{first}!A1': f'=0+{second}!A2', f'{second}!A2': '=1+A2', f'{first}!A2': 1}
+        res, wb = _wb_outcome(ctx, cells, f'{first}!A1')
+        n += 1
+        ctx.expect(res[0] == 'raise' and bool(_CYCLE_WORD.search(res[1] + ' ' + res[2])), ev_fn, f'cycle reported: self reference on sheet {second} reached from {first}',
+                   f'{first}!A1 of {cells} ends in {res[:3]!r}: {second}!A2 refers to itself and that is a cycle whatever sheet the evaluation started on')
     # doubling chains: one evaluation per cell whatever the end value, also when a failure is met last
     depth = 9
     for plabel, pval in (('1', 1), ('0', 0), ('a blank', None), ('FALSE', '=1>2'), ('an empty text', '=""'), ('an error value', '=1/0')):
